@@ -582,6 +582,85 @@ class _Inliner:
         except NotInlinable:
             return None
 
+    def _first_evaluated_call(self, e: ast.AST):
+        """the first call that evaluating `e` performs, if everything evaluated before it is a plain name / constant / attribute
+        load; (call, 'ok') or (None, reason)"""
+        def walk(n):
+            # returns ('call', node) | ('pure', None) | ('stop', None)
+            if isinstance(n, (ast.Name, ast.Constant)):
+                return 'pure', None
+            if isinstance(n, ast.Attribute):
+                return walk(n.value)
+            if isinstance(n, ast.Call):
+                r = walk(n.func) if not isinstance(n.func, ast.Attribute) else walk(n.func.value)
+                if r[0] != 'pure':
+                    return r
+                for a in list(n.args) + [k.value for k in n.keywords]:
+                    if isinstance(a, ast.Starred):
+                        a = a.value
+                    r = walk(a)
+                    if r[0] != 'pure':
+                        return r
+                return 'call', n
+            if isinstance(n, (ast.Tuple, ast.List, ast.Set)):
+                for x in n.elts:
+                    r = walk(x)
+                    if r[0] != 'pure':
+                        return r
+                return 'pure', None
+            if isinstance(n, ast.BinOp):
+                r = walk(n.left)
+                return r if r[0] != 'pure' else walk(n.right)
+            if isinstance(n, ast.UnaryOp):
+                return walk(n.operand)
+            if isinstance(n, ast.Compare):
+                r = walk(n.left)
+                if r[0] != 'pure':
+                    return r
+                return walk(n.comparators[0]) if len(n.comparators) == 1 else ('stop', None)
+            if isinstance(n, ast.Subscript):
+                r = walk(n.value)
+                return r if r[0] != 'pure' else walk(n.slice)
+            if isinstance(n, (ast.BoolOp,)):
+                return walk(n.values[0]) if walk(n.values[0])[0] == 'call' else ('stop', None)
+            if isinstance(n, ast.IfExp):
+                return walk(n.test) if walk(n.test)[0] == 'call' else ('stop', None)
+            return 'stop', None
+        return walk(e)
+
+    def _hoist(self, st: ast.stmt, caller_cls, caller_self) -> Optional[List[ast.stmt]]:
+        """`x = f(h(a))` with h a multi-statement helper evaluated first -> `t = h(a); x = f(t)` (then h is inlined as a statement)"""
+        if isinstance(st, (ast.Assign, ast.AnnAssign, ast.Return, ast.Expr)):
+            head = st.value
+        elif isinstance(st, ast.If):
+            head = st.test
+        else:
+            return None
+        if head is None or (isinstance(head, ast.Call) and not isinstance(st, ast.If) and self._callee(head, caller_cls, caller_self)[0] is not None):
+            return None         # the call is the statement's whole value: the statement forms take it
+        cur = head
+        # descend: the first evaluated call may be an outer non-helper call whose argument is the helper call
+        for _ in range(6):
+            kind, c = self._first_evaluated_call(cur)
+            if kind != 'call':
+                return None
+            g, _r = self._callee(c, caller_cls, caller_self)
+            if g is not None:
+                break
+            return None
+        body = [x for x in g.body if not _is_doc_or_log(x)]
+        if (len(body) == 1 and isinstance(body[0], ast.Return)) or any(isinstance(n, (ast.Yield, ast.YieldFrom)) for n in ast.walk(g)):
+            return None
+        if isinstance(st, ast.If) and not st.orelse and st.body and isinstance(st.body[-1], (ast.Return, ast.Raise)) and (
+                c is head or (isinstance(head, ast.UnaryOp) and head.operand is c)):
+            return None         # the guard form takes it
+        self.counter += 1
+        tmp = '%s__h%d' % (g.name.lstrip('_'), self.counter)
+        from .normalize import _replace
+        new_st = st
+        _replace(new_st, c, ast.copy_location(ast.Name(tmp, ast.Load()), c))
+        return [ast.copy_location(ast.Assign([ast.Name(tmp, ast.Store())], c, lineno=st.lineno), st), new_st]
+
     def _decomprehend(self, st: ast.stmt, caller_cls, caller_self) -> Optional[List[ast.stmt]]:
         """`v = [h(..) for t in xs if c]` with h a multi-statement helper -> `v = []; for t in xs: if c: tmp = h(..); v.append(tmp)`
         so that the call becomes a statement the inliner can expand (N6 folds the loop back when it stays simple)"""
@@ -754,6 +833,8 @@ class _Inliner:
             rep = self._decomprehend(st, caller_cls, caller_self)
             if rep is None:
                 rep = self._inline_stmt(st, caller_cls, caller_self)
+            if rep is None:
+                rep = self._hoist(st, caller_cls, caller_self)
             if rep is None and isinstance(st, ast.For):
                 rep = self._inline_for(st, caller_cls, caller_self)
             if rep is not None:
